@@ -32,6 +32,17 @@ def rename(j, m):
     return j
 
 
+def let_clash_variants(j, ns):
+    """Variants of j whose symbols carry the names the DAG printer gives to its let variables (.def_N):
+    consecutive from 0, consecutive from 1, with gaps, and in descending order."""
+    out = []
+    for nums in ([0, 1, 2, 3], [1, 2, 3, 4], [1, 3, 5, 7], [2, 0, 3, 1], [3, 2, 1, 0]):
+        m = {n: ".def_%d" % nums[i] for i, n in enumerate(ns[:4])}
+        if not (set(m.values()) & set(ns)):
+            out.append(rename(j, m))
+    return out
+
+
 def names_in(j, acc):
     if j["op"] in ("symbol", "function"):
         acc.add(j["n"])
@@ -105,11 +116,16 @@ def run(ck):
             m[ns[(k + 1) % len(ns)]] = odd[(k + 5) % len(odd)]
         if len(set(m.values())) == len(m) and not (set(m.values()) & set(ns)):
             terms.append(rename(j, m))
+    multi = [j for j in base if len(names_in(j, set())) >= 2]
+    for j in ck.rng.sample(multi, min(len(multi), 160 if quick else 1500)):
+        terms += let_clash_variants(j, sorted(names_in(j, set())))
     evs = []
     eid = 0
     skipped = 0
     nologic = 0
-    for j in terms:
+    for idx, j in enumerate(terms):
+        if idx >= len(base):
+            env = fresh_env()       # a renamed variant may reuse a name at another sort: one environment per variant
         try:
             f = term_io.build_public(j, env)
             fj = term_io.export(f)
